@@ -1,7 +1,7 @@
 //! Generic driver for one property: explore, triage against known findings, confirm,
 //! write evidence and replay files, decide the exit code.
 
-use crate::explore::{self, Family, Limits, Verdict, Violation};
+use crate::explore::{self, Bfs, Family, Limits, Verdict, Violation};
 use crate::kf::{self, Finding};
 use crate::seam;
 use serde::{de::DeserializeOwned, Serialize};
@@ -45,6 +45,10 @@ pub struct Cfg {
     pub money: Option<(bool, bool)>,
     #[serde(default, skip_serializing_if = "Option::is_none")]
     pub tz: Option<String>,
+    /// a user-defined unit family "fmt" with one item 'qq' ("{value} qq") that carries its own
+    /// (decimal digits, zero-fraction removal, rounding) settings
+    #[serde(default, skip_serializing_if = "Option::is_none")]
+    pub user_unit: Option<(u8, bool, bool)>,
 }
 
 impl Cfg {
@@ -77,6 +81,14 @@ impl Cfg {
         }
         if let Some(tz) = &self.tz {
             c.set_timezone(tz.clone())?;
+        }
+        if let Some((d, remove, rounding)) = self.user_unit {
+            if !c.add_dynamic_type("fmt") {
+                return Err("add_dynamic_type(fmt) rejected".into());
+            }
+            if !c.add_dynamic_type_item("fmt", 1, "{value} qq", vec!["{NUMBER:value} {TEXT:type:qq}"], "{value}", "{value}", vec!["qq".to_string()], Some(d), Some(rounding), Some(remove)) {
+                return Err("add_dynamic_type_item(fmt, 1) rejected".into());
+            }
         }
         Ok(c)
     }
@@ -120,6 +132,10 @@ pub trait Prop: Sync {
     type Case: Serialize + DeserializeOwned + Send + Sync + Clone + 'static;
     fn id(&self) -> &'static str;
     fn families(&self, tier: Tier) -> Vec<Family<Self::Case>>;
+    /// merged breadth-first layers over operation histories (explicit-state search; see explore::Bfs)
+    fn bfs_layers(&self, _tier: Tier) -> Vec<Bfs<Self::Case>> {
+        Vec::new()
+    }
     fn exec(&self, ctx: &mut Ctx, case: &Self::Case) -> Verdict;
     /// how cases are enumerated and what makes one non-trivial
     fn rule(&self) -> String;
@@ -249,14 +265,17 @@ pub fn run_prop<P: Prop>(p: &P, tier: Tier, seed: u64) -> i32 {
         return 2;
     }
     let mut families = p.families(tier);
+    let mut layers = p.bfs_layers(tier);
     if let Ok(only) = std::env::var("VERIF_FAMILY") {
         // debugging aid only: restrict to some families (never used by registered commands)
         families.retain(|f| only.split(',').any(|o| o == f.name));
+        layers.retain(|f| only.split(',').any(|o| o == f.name));
     }
     let limits = Limits { time_cap_s: p.time_cap(tier), horizon_s: 30.0 };
     let hang_id = id.to_string();
     let stats = explore::run(
         families,
+        layers,
         &limits,
         seed,
         Ctx::new,
@@ -346,7 +365,9 @@ pub fn run_prop<P: Prop>(p: &P, tier: Tier, seed: u64) -> i32 {
     // ---- evidence ----
     let states: u64 = stats.families.iter().map(|f| f.states).sum();
     let transitions: u64 = stats.families.iter().map(|f| f.transitions).sum();
-    let exhaustive = stats.families.iter().all(|f| f.exhaustive);
+    // the flag speaks about the un-merged families (a merged layer is a depth extension and is
+    // reported with its own "completed" / "merged" fields)
+    let exhaustive = stats.families.iter().filter(|f| !f.merged).all(|f| f.exhaustive);
     let mut samples = stats.samples.clone();
     if samples.len() > 12 {
         let step = samples.len() / 6;
@@ -380,7 +401,7 @@ pub fn run_prop<P: Prop>(p: &P, tier: Tier, seed: u64) -> i32 {
             "exhaustive": exhaustive,
             "families": stats.families.iter().map(|f| serde_json::json!({
                 "name": f.name, "mode": f.mode, "bounds": f.bounds, "states": f.states, "transitions": f.transitions,
-                "executions": f.executions, "pruned_by_generator": f.pruned, "completed": f.exhaustive, "wall_s": f.wall_s
+                "executions": f.executions, "pruned_by_generator": f.pruned, "completed": f.exhaustive, "merged": f.merged, "wall_s": f.wall_s
             })).collect::<Vec<_>>(),
             "oracle_classes": stats.classes,
             "calculators_built": stats.calculators_built,
